@@ -42,9 +42,13 @@ def attach_visits(prop="C14"):
             stopped = [False]
             late = [0]
 
+            wrong_data = [0]
+
             def spy(node, d, dat):
                 if stopped[0]:
                     late[0] += 1
+                if dat is not data:
+                    wrong_data[0] += 1
                 seen.append((node, d))
                 r = visit_fn(node, d, dat)
                 if r == STOP:
@@ -59,6 +63,8 @@ def attach_visits(prop="C14"):
             got = ""
             if late[0]:
                 ok, got = False, f"{late[0]} callbacks after the visitor returned STOP"
+            elif wrong_data[0]:
+                ok, got = False, f"{wrong_data[0]} callbacks received something else than the caller's data argument"
             elif len(seen) > len(expect) or len(seen) != n_exp or any(a[0] is not b[0] or a[1] != b[1] for a, b in zip(seen, expect)):
                 ok = False
                 got = "callback sequence " + str([(_idx(expect, s[0]), s[1]) for s in seen][:40]) + " expected " + str(
